@@ -164,6 +164,8 @@ func (tt *TagTree) AddTagValue(mName, val []byte, valueType jp.ValueType, tsid u
 			return fmt.Errorf("AddTagValue: Error in raw tag value conversion %T. Error: %v", val, err)
 		} else {
 			hashVal = xxhash.Sum64String(value)
+			// keep the unescaped value, as the tags tree file does
+			val = []byte(value)
 		}
 	case jp.Number:
 		if value, err := jp.ParseFloat(val); err != nil {
@@ -435,12 +437,8 @@ func (tree *TagTree) encodeTagsTree() ([]byte, error) {
 			id += 8
 			switch tInfo.tagValueType {
 			case jp.String:
-				value, err := jp.ParseString(tInfo.tagValue)
-				if err != nil {
-					log.Errorf("TagTree.encodeTagsTree: Failed to parse %v as string for tag tree %v. Error: %v", tInfo.tagValue, tree.name, err)
-					return nil, err
-				}
-				if _, err = tagBuf.Write(sutils.VALTYPE_ENC_SMALL_STRING[:]); err != nil {
+				value := string(tInfo.tagValue) // already unescaped by AddTagValue
+				if _, err := tagBuf.Write(sutils.VALTYPE_ENC_SMALL_STRING[:]); err != nil {
 					log.Errorf("TagTree.encodeTagsTree: Failed to write tag value type: %+v to buffer for tag tree %v. Error: %v",
 						sutils.VALTYPE_ENC_SMALL_STRING[:], tree.name, err)
 					return nil, err
